@@ -100,3 +100,4 @@ def count(name, lines, ib, stats, meta):
                 n = (fr[32] << 8) | fr[33]
                 stats['distinct'].add((n, tuple(fr[34 + 14 * j] for j in range(n)), len(b.acts)))
                 if len(stats['samples']) < 3: stats['samples'].append({'descriptors': n, 'emitter_calls': [a[:60] for a in b.acts][:6]})
+EXPLORE = dict(ops=('frame', 'relay'), mtu=True, oracle=False)
